@@ -8,6 +8,27 @@ HERE = os.path.dirname(os.path.dirname(os.path.abspath(__file__)))
 def sh(cmd, **kw):
     return subprocess.run(cmd, shell=True, capture_output=True, text=True, **kw)
 
+def base_keys(base, props):
+    """Violation keys per check on the unpatched tree at commit `base` (cached in /tmp for the duration of a sweep)."""
+    cache = "/tmp/cpverif_refac_base_%s.json" % base
+    known = json.load(open(cache)) if os.path.exists(cache) else {}
+    missing = [p for p in props if p not in known]
+    if missing:
+        scratch = tempfile.mkdtemp(prefix="cpverif_refbase_")
+        wt = os.path.join(scratch, "wt")
+        try:
+            sh("git -C /repo worktree add --detach %s %s" % (wt, base))
+            env = dict(os.environ, CPVERIF_REPO=wt, CPVERIF_OUT=os.path.join(scratch, "out"))
+            for prop in missing:
+                c = sh("%s/vcheck %s quick" % (HERE, prop), cwd=HERE, env=env)
+                known[prop] = sorted(set(l.split("key=")[1].split(" what=")[0] for l in c.stdout.splitlines() if l.strip().startswith("key=")))
+        finally:
+            sh("git -C /repo worktree remove --force %s" % wt)
+            shutil.rmtree(scratch, ignore_errors=True)
+        json.dump(known, open(cache, "w"))
+    return known
+
+
 def main():
     src = os.path.abspath(sys.argv[1])
     props = sys.argv[2:] or [c["property_id"] for c in json.load(open(os.path.join(HERE, "MANIFEST.json")))["checks"]]
@@ -16,7 +37,10 @@ def main():
     out = {"dir": src}
     try:
         sh("git -C /repo worktree add --detach %s HEAD" % wt)
-        a = sh("git -C %s apply %s" % (wt, os.path.join(src, "patch.diff")))
+        a = sh("git -C %s apply --3way %s" % (wt, os.path.join(src, "patch.diff")))
+        if a.returncode != 0 or "<<<<<<<" in sh("git -C %s diff" % wt).stdout:
+            sh("git -C %s reset -q --hard; git -C %s clean -fdq" % (wt, wt))
+            a = sh("git -C %s apply %s" % (wt, os.path.join(src, "patch.diff")))
         base = os.environ.get("REFACTOR_BASE")
         if a.returncode != 0 and base:
             # the refactoring was written against an earlier commit of /repo: evaluate it there
@@ -31,11 +55,16 @@ def main():
             out["baseline"] = b.stdout.strip()[-200:]
             env = dict(os.environ, CPVERIF_REPO=wt, CPVERIF_OUT=os.path.join(scratch, "out"))
             out["alarms"] = {}
+            # evaluated at an old commit the checks rightly report the defects repaired since then: only keys that the
+            # unpatched tree at that commit does not show count as alarms of the refactoring
+            reference = base_keys(out["evaluated_at"], props) if out.get("evaluated_at") else {}
             for prop in props:
                 c = sh("%s/vcheck %s quick" % (HERE, prop), cwd=HERE, env=env)
                 if c.returncode != 0:
                     keys = sorted(set(l.split("key=")[1].split(" what=")[0] for l in c.stdout.splitlines() if l.strip().startswith("key=")))
-                    out["alarms"][prop] = {"rc": c.returncode, "keys": keys[:8], "tail": c.stdout[-400:]}
+                    new_keys = [k for k in keys if k not in reference.get(prop, [])]
+                    if new_keys or (not keys and c.returncode != 0 and prop not in reference):
+                        out["alarms"][prop] = {"rc": c.returncode, "keys": new_keys[:8], "tail": c.stdout[-400:]}
         else:
             out["apply_error"] = a.stderr[-300:]
     finally:
